@@ -12,7 +12,8 @@
 //           xoshiro128plus.c, xoshiro128starstar.c incl. their jump()),
 //       (b) a float/double result is outside [0,1) or is not exactly (x >> 9)·2^-23 / (x >> 12)·2^-52,
 //       (c) a state word produced by seeding is zero,
-//       (d) two objects built from the same seed do not produce the same stream.
+//       (d) two objects built from the same seed do not produce the same stream,
+//       (e) uint64() of a 4-byte variant is not widen(first uint32() draw, second uint32() draw).
 //
 // Usage: ./c20_harness <seed> <count> [mode]
 //   mode = quick (default) : special seeds + <count> random seeds, short scripts
@@ -207,22 +208,28 @@ static void checkFloat64(const char* gen, uint64_t x, double f) {
 }
 
 ////////////////////////////////////////////////////////////////////////////////////////////////////
-// widen(uint32(), uint32()) argument evaluation order of THIS build (unspecified in C++)
+// uint64() of the 4-byte variants = widen(first draw, second draw)?  The source now sequences the two draws
+// (`const uint32_t x = uint32(); const uint32_t y = uint32(); return widen(x, y);`), so the order is a source
+// fact; the harness still MEASURES what the binary does and prints it -- the Lean driver compares the
+// measurement with the fact extracted from the source (it does not adopt it), and the oracle below requires
+// "first draw = first argument of widen = high half".  (Before the repair the body was
+// `widen(uint32(), uint32())`: unspecified order, g++ drew the right argument first, clang the left one.)
 
-static bool g_rightFirst;
-
-static void detectWidenOrder() {
-	IntRandomT<4> a(12345u), b(12345u);
+template <typename Gen>
+static void measureWidenOrder(const char* name) {
+	Gen a(12345u), b(12345u);
 	const uint32_t first = b.uint32(), second = b.uint32();
 	const uint64_t w = a.uint64();
-	if (w == ((static_cast<uint64_t>(second) << 32) | first))
-		g_rightFirst = true;
-	else if (w == ((static_cast<uint64_t>(first) << 32) | second))
-		g_rightFirst = false;
-	else
-		oracleFail("IntRandomT<4>::uint64() is neither widen(first,second) nor widen(second,first)");
-	std::printf("cfg widen-order => %s\n", g_rightFirst ? "rightFirst" : "leftFirst");
+	const char* order = "neither";
+	if (w == ((static_cast<uint64_t>(first) << 32) | second))
+		order = "leftFirst";
+	else if (w == ((static_cast<uint64_t>(second) << 32) | first))
+		order = "rightFirst";
+	std::printf("cfg widen-order %s => %s\n", name, order);
 	++st_lines;
+	if (std::strcmp(order, "leftFirst") != 0)
+		oracleFail(std::string(name) + "::uint64() is not widen(first draw, second draw): measured order " + order
+				   + " (compiler-dependent or swapped halves)");
 }
 
 ////////////////////////////////////////////////////////////////////////////////////////////////////
@@ -346,7 +353,7 @@ struct XoDriver {
 		if (sizeof(Word) == 8) return ref.next();
 		const uint32_t first = static_cast<uint32_t>(ref.next());
 		const uint32_t second = static_cast<uint32_t>(ref.next());
-		return g_rightFirst ? (static_cast<uint64_t>(second) << 32) | first : (static_cast<uint64_t>(first) << 32) | second;
+		return (static_cast<uint64_t>(first) << 32) | second;   // defined order: first draw is the high half
 	}
 	uint32_t refU32() { return static_cast<uint32_t>(ref.next()); }
 
@@ -643,7 +650,8 @@ int main(int argc, char** argv) {
 		return 0;
 	}
 
-	detectWidenOrder();
+	measureWidenOrder<FloatRandomT<4>>("f4");
+	measureWidenOrder<IntRandomT<4>>("i4");
 
 	// default-constructed objects (seed 0)
 	{ F8 d("f8", false); d.newDefault(); d.batch(8); }
@@ -677,7 +685,7 @@ int main(int argc, char** argv) {
 	std::printf("# stat op_u64=%llu op_u32=%llu op_f32=%llu op_f64=%llu op_raw=%llu op_uint=%llu\n", st_u64, st_u32, st_f32, st_f64, st_raw, st_uint);
 	std::printf("# stat retry_hits=%llu retry_at_word0=%llu retry_at_word1=%llu retry_at_word2=%llu retry_at_word3=%llu\n",
 				st_retry_hits, st_retry_seed_positions[0], st_retry_seed_positions[1], st_retry_seed_positions[2], st_retry_seed_positions[3]);
-	std::printf("# stat float_zero=%llu float32_top=%llu allzero_state_lines=%llu widen_order=%s\n", st_float_zero, st_float_top, st_allzero_state, g_rightFirst ? "rightFirst" : "leftFirst");
+	std::printf("# stat float_zero=%llu float32_top=%llu allzero_state_lines=%llu\n", st_float_zero, st_float_top, st_allzero_state);
 	std::printf("# stat oracle_fail=%llu\n", st_oracle_fail);
 	return 0;
 }
